@@ -99,6 +99,10 @@ func under(t types.Type) types.Type {
 	if m := atomicModelType(t); m != nil {
 		return m
 	}
+	// math/big.Int is modelled as a mathematical (unbounded) integer cell
+	if n, ok := types.Unalias(t).(*types.Named); ok && n.Obj().Pkg() != nil && n.Obj().Pkg().Path() == "math/big" && n.Obj().Name() == "Int" {
+		return types.Typ[types.UntypedInt]
+	}
 	if isSyncType(t) {
 		return emptyStruct
 	}
